@@ -596,6 +596,14 @@ struct RuleVisitor<'a> {
 
 impl<'a> VisitMut for RuleVisitor<'a> {
     fn visit_block_mut(&mut self, b: &mut Block) {
+        {
+            // E3: a `use` declaration inside a function body is dropped like the file-level ones (the unit is flat; paths are shortened by the same rule)
+            let before = b.stmts.len();
+            b.stmts.retain(|s| !matches!(s, Stmt::Item(syn::Item::Use(_))));
+            for _ in b.stmts.len()..before {
+                self.applied.bump("E3-use-in-body-dropped");
+            }
+        }
         if self.rules.drop_tracing {
             let before = b.stmts.len();
             b.stmts.retain(|s| match s {
